@@ -270,7 +270,8 @@ def symmetric_checks(ctx, stream, count, rng):
 def known_class(c, io, mo):
     """C10-schwartz-order: the Schwartz routine (known finding C06-schwartz) returns a prefix of a stable sort; with
     pairwise ties among unbeaten groups that prefix depends on the order / names"""
-    if c.get('evaluator') == 'allocated_score' and ('err' in str(io) or 'err' in str(mo)):
+    crashed = lambda x: '"err"' in str(x) or not (str(x).startswith("(('") or str(x).startswith('{'))     # noqa
+    if c.get('evaluator') == 'allocated_score' and (crashed(io) or crashed(mo)):
         return 'C10-allocated-score'
     if c.get('evaluator') == 'schwartz_set':
         import pairwise as pw
